@@ -113,31 +113,35 @@ def main(argv=None):
 def _main(a, seed, t_start):
     prop = a.prop
     tier = a.tier if a.tier in ('quick', 'thorough') else 'quick'
-    reg, mod = load_registry(prop)
-    ev = specs.compile_specfuns(reg)
-    obls = specs.prefix_lemma_obligations(reg, prop) + specs.concat_lemma_obligations(reg, prop) + specs.lemma_obligations(reg, ev, prop)
-    functions, undecided_fns = [], []
-    per_fn = {}
-    axioms = []
-    for ax in getattr(mod, 'AXIOMS', []):
-        pass
-    for c in reg.contracts.values():
-        if c.assumed or prop not in c.serves:
+    mod = importlib.import_module('contracts.' + prop)
+    units = getattr(mod, 'UNITS', [prop])      # a property may re-use the kernels (contract files) of others: one registry per unit
+    obls, functions, undecided_fns, per_fn, regs = [], [], [], {}, []
+    from pyvc import state as _state
+    for unit in units:
+        _state._key_sorts.clear()
+        _state._entry_arrays.clear()
+        reg, umod = load_registry(unit)
+        regs.append((reg, umod))
+        ev = specs.compile_specfuns(reg)
+        todo = [c for c in reg.contracts.values() if not c.assumed and prop in c.serves and not (a.only and a.only not in c.target)]
+        if not todo:
             continue
-        if a.only and a.only not in c.target:
-            continue
-        try:
-            d = extract.describe(c.target)
-            v = FnVerifier(reg, c, prop, axioms=global_axioms(reg, ev))
-            got = v.run()
-            per_fn[v.fname] = got
-            obls += got
-            d['obligations'] = len(got)
-            functions.append(d)
-        except (Unsupported, extract.ExtractError) as ex:
-            undecided_fns.append({'target': c.target, 'reason': str(ex)})
-        except RecursionError as ex:
-            undecided_fns.append({'target': c.target, 'reason': 'recursion limit in generator'})
+        obls += specs.prefix_lemma_obligations(reg, prop) + specs.concat_lemma_obligations(reg, prop) + specs.lemma_obligations(reg, ev, prop)
+        for c in todo:
+            try:
+                d = extract.describe(c.target)
+                v = FnVerifier(reg, c, prop, axioms=global_axioms(reg, ev))
+                got = v.run()
+                per_fn[v.fname] = per_fn.get(v.fname, []) + got
+                obls += got
+                d['obligations'] = len(got)
+                d['contract_file'] = 'contracts/%s.py' % unit
+                functions.append(d)
+            except (Unsupported, extract.ExtractError) as ex:
+                undecided_fns.append({'target': c.target, 'reason': str(ex)})
+            except RecursionError as ex:
+                undecided_fns.append({'target': c.target, 'reason': 'recursion limit in generator'})
+    reg = MergedReg(regs)
     # unique names
     seen = {}
     for o in obls:
@@ -316,7 +320,7 @@ def _main(a, seed, t_start):
         'coverage': {
             'obligations': n_ob - n_known_ref, 'discharged': n_dis,
             'checker_cmd': './check %s --tier %s' % (prop, tier),
-            'trusted_base': getattr(mod, 'TRUSTED', []) + COMMON_TRUSTED,
+            'trusted_base': reg.trusted + [t for t in getattr(mod, 'TRUSTED', []) if t not in reg.trusted] + COMMON_TRUSTED,
             'samples': [sample(o, results[o.name]) for o in pick_samples(real)],
             'functions_under_contract': functions,
             'assumed_contracts': sorted(c.target for c in reg.contracts.values() if c.assumed and used_by(c, prop)),
@@ -331,7 +335,7 @@ def _main(a, seed, t_start):
             'lemmas': sorted(reg.lemmas), 'spec_functions': sorted(reg.specfuns),
             'explanation': getattr(mod, 'EXPLANATION', ''),
         },
-        'assumptions': getattr(mod, 'ASSUMPTIONS', []) + COMMON_ASSUMPTIONS,
+        'assumptions': reg.assumptions + [t for t in getattr(mod, 'ASSUMPTIONS', []) if t not in reg.assumptions] + COMMON_ASSUMPTIONS,
         'wall_s': round(wall, 2), 'violations': len(violations),
     }
     os.makedirs(os.path.join(HERE, 'evidence'), exist_ok=True)
@@ -369,6 +373,24 @@ def _main(a, seed, t_start):
     if undecided or undecided_fns:
         return 2
     return 0
+
+
+class MergedReg:
+    """read-only union of the unit registries for reporting"""
+
+    def __init__(self, regs):
+        self.contracts, self.lemmas, self.specfuns = {}, {}, {}
+        self.trusted, self.assumptions = [], []
+        for r, m in regs:
+            self.contracts.update(r.contracts)
+            self.lemmas.update(r.lemmas)
+            self.specfuns.update(r.specfuns)
+            for t in getattr(m, 'TRUSTED', []):
+                if t not in self.trusted:
+                    self.trusted.append(t)
+            for t in getattr(m, 'ASSUMPTIONS', []):
+                if t not in self.assumptions:
+                    self.assumptions.append(t)
 
 
 COMMON_TRUSTED = [
